@@ -37,3 +37,15 @@ pub struct ExContext<'a>(std::task::Context<'a>);
 #[verifier::reject_recursive_types(T)]
 #[verifier::external_type_specification]
 pub struct ExPoll<T>(std::task::Poll<T>);
+
+// ---- Option combinators missing from vstd (closure results through the closure's own contract) ----
+pub assume_specification<T, U, F: FnOnce(T) -> U> [Option::<T>::map_or] (o: Option<T>, default: U, f: F) -> (r: U)
+    requires o is Some ==> f.requires((o->0,)),
+    ensures
+        o is None ==> r == default,
+        o is Some ==> f.ensures((o->0,), r);
+pub assume_specification<T, F: FnOnce(T) -> bool> [Option::<T>::is_some_and] (o: Option<T>, f: F) -> (r: bool)
+    requires o is Some ==> f.requires((o->0,)),
+    ensures
+        o is None ==> !r,
+        o is Some ==> f.ensures((o->0,), r);
